@@ -141,6 +141,22 @@ T('combo-oer-enum', 'A ::= SEQUENCE { a BOOLEAN, b ENUMERATED { x, y } }', feats
 T('combo-seqof-seq', 'A ::= SEQUENCE { a BOOLEAN, b SEQUENCE OF INTEGER, c INTEGER OPTIONAL }',
   feats={'combo', 'of'}, quick=dict(int_abs=1 << 9))
 
+# ---- constraint shapes (C11/C12) -----------------------------------------------
+T('c11-nested', 'A ::= SEQUENCE { a CHOICE { p INTEGER (0..7), q IA5String (SIZE(1..2)) }, '
+  'l SEQUENCE (SIZE(1..2)) OF INTEGER (-3..3), ..., [[ g INTEGER (10..20) ]] }', feats={'constraint'})
+T('c11-minmax', 'A ::= SEQUENCE { a INTEGER (MIN..5), b INTEGER (-5..MAX), c INTEGER (MIN..MAX) }',
+  feats={'constraint'})
+T('c11-ref', 'A ::= SEQUENCE { a B (1..3), b B, c C }\nB ::= INTEGER (0..10)\nC ::= B (4..5)',
+  feats={'constraint', 'ref'})
+T('c11-named', 'A ::= SEQUENCE { a INTEGER { lo(2), hi(9) } (lo..hi), b INTEGER { z(0) } (z) }',
+  feats={'constraint'})
+T('c11-size-valref', 'n INTEGER ::= 2\nA ::= SEQUENCE { o OCTET STRING (SIZE(1..n)), '
+  'b BIT STRING (SIZE(n)), s SEQUENCE (SIZE(n)) OF BOOLEAN }', feats={'constraint'})
+T('c11-strings', 'A ::= SEQUENCE { n NumericString (SIZE(1..2)), p PrintableString (FROM("A".."C")), '
+  'v VisibleString (SIZE(2)) (FROM("a".."b")), u UTF8String (SIZE(0..1)) }', feats={'constraint', 'str'})
+T('c11-ext', 'A ::= SEQUENCE { a INTEGER (0..7, ...), s IA5String (SIZE(1, ...)), '
+  'l SEQUENCE (SIZE(1..2, ...)) OF INTEGER (0..1) }', feats={'constraint', 'ext'})
+
 BY_ID = {t['id']: t for t in TEMPLATES}
 
 
